@@ -621,17 +621,29 @@ impl Rt {
             });
         }
 
+        let name = ResolvedName {
+            scope,
+            ident: ty.ident,
+        };
+
+        // The type checker does not report this for the names of the
+        // primitives, which it knows before they are registered.
+        if self.types.iter().any(|old_ty| old_ty.name == name) {
+            return Err(RegistrationError {
+                message: format!(
+                    "Item `{}` already exists in this scope",
+                    ty.ident
+                ),
+                location: ty.location.clone(),
+            });
+        }
+
         self.type_checker
             .declare_runtime_type(scope, ty.ident, ty.type_id, ty.doc.clone())
             .map_err(|e| RegistrationError {
                 message: e,
                 location: ty.location.clone(),
             })?;
-
-        let name = ResolvedName {
-            scope,
-            ident: ty.ident,
-        };
 
         self.types.push(RuntimeType {
             name,
